@@ -255,6 +255,41 @@ def type_blocks(ctx):
     return n
 
 
+WB_GUARDS = [('P', 'a exists'), ('P', 'lm[ k == 1 ] !empty'), ('F', 'a !exists'), ('F', 'a == 2'), ('S', 'lm[ k == 99 ].t exists'),
+             ('S', 'lm[ k == 99 ].t == "x"'), ('S', 'some lm[ k == 99 ].t > 10'), ('PS', 'a exists\n    lm[ k == 99 ].t exists'), ('SF', 'lm[ k == 99 ].t exists or\n    a == 2'),
+             ('SS', 'lm[ k == 99 ].t exists or\n    lm[ k == 98 ].t exists')]
+WB_BODIES = ['a == 1', 'a == 2', 'lm[ k == 99 ].t == 1', 'a == 2 or\n      a == 1']
+WB_ELEM_GUARDS = ['k exists', 'k == 1', 'k == 99', 'sub[ x == 99 ].y exists', 'sub[ x == 99 ].y == 1', 'j !exists']
+
+
+def when_blocks(ctx):
+    """directed: a block-level `when` runs its block only if the guard PASSes - guards that PASS, FAIL and SKIP (a comparison on an
+    empty filtered selection), one or several lines, x bodies that PASS / FAIL / SKIP, in a rule body, nested in another `when`, and
+    inside a query block over list elements (guard on the element)"""
+    pairs = []
+    doc = json.dumps(DOCS[0])
+    rules, n = '', 0
+    for cls, g in WB_GUARDS:
+        for b in WB_BODIES:
+            rules += 'rule w%d {\n  when %s {\n      %s\n  }\n}\n' % (n, g, b); n += 1
+            rules += 'rule w%d {\n  a exists\n  when %s {\n      %s\n  }\n}\n' % (n, g, b); n += 1
+            rules += 'rule w%d {\n  when a exists {\n    when %s {\n      %s\n    }\n  }\n}\n' % (n, g, b); n += 1
+        if n >= 30:
+            pairs.append({'rules': rules, 'data': doc, 'loader': 'json'}); rules, n = '', 0
+    for g in WB_ELEM_GUARDS:
+        for b in ['k >= 1', 'k == 1', 't exists']:
+            for some in ('', 'some '):
+                rules += 'rule w%d {\n  %slm[*] {\n    when %s {\n      %s\n    }\n  }\n}\n' % (n, some, g, b); n += 1
+    pairs.append({'rules': rules, 'data': doc, 'loader': 'json'})
+    res = spec_cases(pairs, ctx.wd, 'c01wb')
+    stats = {}
+    k = judge(ctx, pairs, res, stats)
+    ctx.coverage['when_block_files_run'] = len(pairs)
+    ctx.coverage['when_block_file_verdicts'] = stats
+    ctx.coverage['evaluations'] += len(pairs)
+    return k
+
+
 def run(ctx):
     ctx.build()
     pr = ctx.proofs('C01')
@@ -263,6 +298,7 @@ def run(ctx):
     n2 = exhaustive(ctx, None if thorough else 1500)
     n2 += variables(ctx, None if thorough else 25)
     n2 += type_blocks(ctx)
+    n2 += when_blocks(ctx)
     out, errs = corr.run(pairs[:400], ctx.wd, 'c01corr', loader='cli')
     if errs:
         raise ToolingError('model evaluation failed: %r' % (errs[:1],))
